@@ -185,10 +185,15 @@ def run(prog, tier):
         if bpar not in lo or bpar not in hi:
             why.append("the box is not derived from the bounds argument")
         # inward shrink: lower edge moved up, upper edge moved down, by a non-negative multiple of the width
-        ab_lo, _ = abstract(ast.parse(lo, mode="eval").body, [(f"[array([_k[_i] for _k in {bpar}], dtype=float) for _i in [0, 1]][0]", "LO"),
-                                                               (f"[array([_k[_i] for _k in {bpar}], dtype=float) for _i in [0, 1]][1]", "HI")])
-        ab_hi, _ = abstract(ast.parse(hi, mode="eval").body, [(f"[array([_k[_i] for _k in {bpar}], dtype=float) for _i in [0, 1]][0]", "LO"),
-                                                               (f"[array([_k[_i] for _k in {bpar}], dtype=float) for _i in [0, 1]][1]", "HI")])
+        base = []
+        for j_, nm_ in ((0, "LO"), (1, "HI")):
+            base += [(f"[array([_k[_i] for _k in {bpar}], dtype=float) for _i in [0, 1]][{j_}]", nm_),
+                     (f"[array([_k[_i] for _k in {bpar}]) for _i in [0, 1]][{j_}]", nm_),
+                     (f"array([_k[{j_}] for _k in {bpar}], dtype=float)", nm_), (f"array([_k[{j_}] for _k in {bpar}])", nm_),
+                     (f"array({bpar}, dtype=float).T[{j_}]", nm_), (f"array({bpar}).T[{j_}]", nm_),
+                     (f"asarray({bpar}, dtype=float).T[{j_}]", nm_), (f"array({bpar}, dtype=float)[:, {j_}]", nm_)]
+        ab_lo, _ = abstract(ast.parse(lo, mode="eval").body, base)
+        ab_hi, _ = abstract(ast.parse(hi, mode="eval").body, base)
         try:
             LO, HI = R.sym("LO"), R.sym("HI")
             c_lo = anf.proportional(anf_of(ab_lo) - LO, HI - LO)
